@@ -159,6 +159,10 @@ def corruptions(lit):
   out = []
 
   def rec(x, rebuild):
+    if isinstance(x, float):
+      out.append(rebuild((x, 1)))                                   # children under a float decision
+      out.append(rebuild((x, [0, 0])))
+      return
     if isinstance(x, bool) or not isinstance(x, (int, list, tuple)):
       return
     if isinstance(x, int):
@@ -171,6 +175,8 @@ def corruptions(lit):
     for i, c in enumerate(seq):
       rec(c, lambda y, i=i: rebuild(kind(seq[:i] + [y] + seq[i + 1:])))
     if isinstance(x, list):
+      out.append(rebuild((1, seq)))                                 # a value on a node that only groups children
+      out.append(rebuild((7, seq)))
       for i in range(len(seq)):
         out.append(rebuild(seq[:i] + seq[i + 1:]))                 # drop
         out.append(rebuild(seq[:i] + [seq[i]] + seq[i:]))           # duplicate
